@@ -307,6 +307,9 @@ def gen_ng_case(rng, nmax=6, nadds=8, nq=6):
 
     ops = rng.below(nadds) + 1
     for _ in range(ops):
+        if rng.chance(1, 40):
+            lines.append("add " + "u" * n)     # the empty nogood
+            continue
         g = derived() if added and rng.chance(3, 5) else rand_ng()
         added.append(g)
         lines.append("add " + g)
@@ -320,6 +323,6 @@ def gen_ng_case(rng, nmax=6, nadds=8, nq=6):
         elif k < 9:
             lines.append("closure " + i)
         else:
-            lines.append("conclude %s %s" % (rng.pick(added), i))
+            lines.append("conclude %s %s" % (rng.pick(added) if added else "T" + "u" * (n - 1), i))
     lines.append("dump")
     return lines, {"n": n, "mode": mode}
